@@ -508,6 +508,20 @@ type provCase struct {
 	Default   []ProviderStep            `json:"default"`
 }
 
+// notAddressBodies: answers that are not an address by construction, whatever parser is asked. Besides plain
+// text and out-of-range numbers: an address with something attached (a zone, a prefix length, a port, brackets),
+// which the more lenient parsers of the standard library accept or strip.
+var notAddressBodies = []string{"not an ip", "", "999.9.9.9", "<html>", "fe80::1%eth0", "2001:db8::1%1", "203.0.113.5/32", "203.0.113.5:80", "[2001:db8::1]", "2001:db8::1%0\n"}
+
+func isNotAddressBody(b string) bool {
+	for _, x := range notAddressBodies {
+		if strings.TrimSpace(b) == strings.TrimSpace(x) {
+			return true
+		}
+	}
+	return false
+}
+
 func stepIsValid(s ProviderStep) bool {
 	// (a body that trickles in byte by byte is as valid as one that arrives at once)
 	if s.Kind != "resp" && s.Kind != "slow-body" {
@@ -520,7 +534,7 @@ func stepIsValid(s ProviderStep) bool {
 	if code >= 400 && code < 500 {
 		return false
 	}
-	return net.ParseIP(strings.TrimSpace(s.Body)) != nil
+	return !isNotAddressBody(s.Body) && net.ParseIP(strings.TrimSpace(s.Body)) != nil
 }
 
 func stepIsPermanent(s ProviderStep) bool {
@@ -534,7 +548,7 @@ func stepIsPermanent(s ProviderStep) bool {
 	if code >= 400 && code < 500 {
 		return true
 	}
-	return net.ParseIP(strings.TrimSpace(s.Body)) == nil
+	return isNotAddressBody(s.Body) || net.ParseIP(strings.TrimSpace(s.Body)) == nil
 }
 
 func checkC18Providers(t *testing.T, c *provCase, rec *Recorder) []Diff {
@@ -693,7 +707,7 @@ func TestC18Providers(t *testing.T) {
 			var steps []ProviderStep
 			switch oneOf(rt, fmt.Sprintf("p%d_cat", i), "final", "final", "transient-then-final", "transient-then-valid", "valid", "stall", "transient") {
 			case "final":
-				steps = []ProviderStep{{Kind: "resp", Status: oneOf(rt, fmt.Sprintf("p%d_code", i), 400, 403, 404, 499, 200, 500), Body: oneOf(rt, fmt.Sprintf("p%d_body", i), "not an ip", "", "999.9.9.9", "<html>")}}
+				steps = []ProviderStep{{Kind: "resp", Status: oneOf(rt, fmt.Sprintf("p%d_code", i), 400, 403, 404, 499, 200, 500), Body: oneOf(rt, fmt.Sprintf("p%d_body", i), notAddressBodies...)}}
 			case "transient-then-final":
 				steps = []ProviderStep{{Kind: "neterr"}, {Kind: "resp", Status: 404, Body: "203.0.113.1"}}
 			case "transient-then-valid":
